@@ -162,7 +162,7 @@ func genHop(t *rapid.T) HopScript {
 	}
 	s.Compression = rapid.SampledFrom(compressionsOf(s.Transport)).Draw(t, "compression")
 	s.Level = rapid.SampledFrom(levelsOf(s.Transport, s.Compression)).Draw(t, "level")
-	if rapid.IntRange(0, 39).Draw(t, "bulk") == 13 { // (a middle value: rapid favours the ends of a range)
+	if rapid.IntRange(0, 19).Draw(t, "bulk") == 7 { // (a middle value: rapid favours the ends of a range)
 		s.BulkItems = rapid.IntRange(300, 1500).Draw(t, "bulk_items")
 		s.BulkBytes = rapid.IntRange(300, 2000).Draw(t, "bulk_bytes")
 	}
